@@ -513,14 +513,13 @@ class C19(C.Check):
     prop = "C19"
     coq_dir = "C19"
     trusted_base = [
-        "Coq 8.16.1 kernel; all C19 theorems are closed under the global context (they reuse NV.C23.Model / leaves_ok_upto_128 of C23)",
+        "Coq 8.16.1 kernel; all C19 theorems are closed under the global context (they reuse NV.C23.Model and the unbounded tree-shape theorem NV.C23.Leaves.seq_sum_assoc)",
         "hand-written model coq/C19/Model.v of SampledKLEnergyClass / ResidualSampleList / _kl_vg / _kl_met / kl_minimize(constants) (tied by correspondence)",
         "simplify_for_constant_input is modelled by its specification (value and restricted gradient of the full Hamiltonian; property C04), checked here through the correspondence",
         "harness-side construction of the generated Hamiltonians on both APIs (harness/props/c19.py, harness/lg_common.dense_op)",
     ]
     assumptions = [
         "scalar addition is associative when the summation tree is identified with the arithmetic mean (exact for the integer/dyadic cases; float64 differences are below the 1e-8 tolerance otherwise)",
-        "at most 128 samples (the bounded tree-shape lemma of C23)",
         "XLA's reduction order in jnp.mean is unspecified; compared exactly only where every order gives the same float",
     ]
 
